@@ -9,9 +9,14 @@ Open Scope N_scope.
 Inductive case :=
 | mk (c_h : handler) (c_env : env) (c_msg : msg) (observed : outcome)
     (* one packet handed to a fresh handler *)
-| mkHist (c_h : handler) (c_env : env) (c_msgs : list msg) (observed : list hobs).
+| mkHist (c_h : handler) (c_env : env) (c_msgs : list msg) (observed : list hobs)
+| mkReg (c_env : env) (c_msgs : list msg) (observed : list outcome).
+    (* 3..6 register (/unregister) messages of one player through one client play handler: the known
+       channel set grows and shrinks along the way; one observed outcome per message *)
     (* 2..4 packets back to back through the SAME handler instance on registered channels; the
        PluginMessageEvent subscriber of each blocks until the next packet has been handled *)
+
+Definition spec_steps (e : env) (ms : list msg) := reg_history true true [] e ms.
 
 Definition judge_one (h : handler) (e : env) (m : msg) (o : outcome) : verdict :=
   let i := impl_handle h e m in
@@ -32,8 +37,16 @@ Definition judge_hist (h : handler) (e : env) (ms : list msg) (obs : list hobs) 
   else if hist_all (impl_history h e ms) obs && forallb (trigger2 h e) ms then VKnown 2
   else VViolation.
 
+(* register history: at every step, whatever the player's known channels, a forwarded registration
+   raised exactly one event with the parsed channels (holds_P with that step's channel count) *)
+Definition judge_reg (e : env) (ms : list msg) (obs : list outcome) : verdict :=
+  let steps := spec_steps e ms in
+  if negb (reg_hist_holds steps ms obs) then VViolation
+  else if reg_hist_equal steps obs then VOk else VMismatch.
+
 Definition judge (c : case) : verdict :=
   match c with
+  | mkReg e ms obs => judge_reg e ms obs
   | mk h e m o => judge_one h e m o
   | mkHist h e ms obs => judge_hist h e ms obs
   end.
